@@ -210,6 +210,37 @@ def dbgScan (c : Ctx) (m : TraitMeta) (num : String → Nat) : Res DbgType :=
     pure (dbgEnumType num c.d ta vs)
   | .union => .diag .notSupportUnion
 
+/-! ### Into -/
+
+abbrev IntoScan := List (Variant × List (Field × List (String × Option String)))
+
+/-- The variant / field scan of `intoHandler`: every field's `Into(T[, method(m)])` markers, each of which must name a
+    target requested on the type. -/
+def intoScan (c : Ctx) (targets : List (String × Bound)) : Res IntoScan :=
+  mapRes (fun v => do
+      if c.d.kind == .enum then
+        let vm ← collectAttrs c.F c.traits .into v.attrs []
+        if !vm.isEmpty then let _ ← intoTypeFromMetas false vm []
+      let fas ← mapRes (fun f => do
+          let fm ← collectAttrs c.F c.traits .into f.attrs []
+          let marks ← if fm.isEmpty then pure [] else intoFieldFromMetas true fm []
+          match marks.find? fun p => !(targets.any fun t => t.1 == p.1) with
+          | some _ => Res.diag .noIntoImpl
+          | none => pure (f, marks)) v.fields
+      pure (v, fas)) c.d.variants
+
+/-- `tnum` numbers the normalised type strings (`to_hash_type`), `mnum` the custom methods. -/
+def intoField (tnum mnum : String → Nat) (fa : Field × List (String × Option String)) : IntoField :=
+  { name := identOf (fname fa.1), ty := tnum fa.1.hashTy, markers := fa.2.map fun p => (tnum p.1, p.2.map mnum) }
+
+def intoVariant (tnum mnum : String → Nat) (p : Variant × List (Field × List (String × Option String))) : IntoVariant :=
+  { name := identOf p.1.name, shape := p.1.shape, fields := p.2.map (intoField tnum mnum) }
+
+def intoType (tnum mnum : String → Nat) (k : Kind) (vs : IntoScan) : IntoType :=
+  match k with
+  | .enum => .enum (vs.map (intoVariant tnum mnum))
+  | _ => .struct ((vs.map (intoVariant tnum mnum)).headD {})
+
 /-! ### what Rust guarantees about the definition itself -/
 
 /-- Field names of a struct-like variant are pairwise distinct; unit variants have no fields. -/
